@@ -2,7 +2,7 @@
 
 COMMON_HEAD = [
     ("file", "prelude/common.rs"),
-    ("enum", "errors.rs", "DSError"),
+    ("enum", "errors.rs", "DSError", ["Debug"]),
     ("consts", "constants.rs", "*"),
     ("enum", "constants.rs", "Class"),
     ("traitimpl", "constants.rs", "From<Class> for u16", "*"),
@@ -260,4 +260,33 @@ UNITS["U8"] = {
     "flags": ["--no-lifetime"], "rlimit": 100,
     "contracts": _u7["contracts"] + ["contracts/U8.contract"],
     "parts": _p8,
+}
+
+
+# U9 = U6 (readers, validator contract, decompressor) + the mutating operations
+_MUTP = ["set_offset", "set_offset_next", "invalidate", "recompute_rr", "recompute_sections", "raw_mut", "parsed_packet_mut"]
+_p9 = []
+for _p in UNITS["U6"]["parts"]:
+    if _p[0] == "trait" and _p[2] == "DNSIterable":
+        _p = ("trait", _p[1], _p[2], list(_p[3]) + _MUTP + ["rdata_slice_mut"])
+    elif _p[0] == "trait" and _p[2] == "RdataIterable":
+        _p = ("trait", _p[1], _p[2], list(_p[3]) + ["set_rr_ttl", "set_rr_ip"])
+    elif _p[0] == "traitimpl" and _p[2].startswith("DNSIterable for "):
+        _p = ("traitimpl", _p[1], _p[2], list(_p[3]) + _MUTP)
+    elif _p[0] == "struct" and _p[2] == "RRRaw":
+        _p9.append(_p)
+        _p = ("struct", "rr_iterator.rs", "RRRawMut")
+    _p9.append(_p)
+    if _p == ("file", "spec/pfedit.rs"):
+        _p9.append(("file", "spec/mutate.rs"))
+    if _p[0] == "struct" and _p[2] == "ParsedPacket":
+        pass
+_p9 += [("struct", "synth/gen.rs", "RR", ["pubfields"]), ("impl", "dns_sector.rs", "DNSSector", ["set_qdcount", "set_ancount", "set_nscount", "set_arcount"]),
+        ("impl", "parsed_packet.rs", "ParsedPacket", ["into_packet", "rrcount_inc", "rrcount_dec", "insertion_offset", "recompute", "insert_rr"])]
+# the packet-level functions must come before the traits that call them: order is irrelevant in Rust, so this is fine
+UNITS["U9"] = {
+    "title": "mutating operations (C08, C09, C10, C11)",
+    "flags": ["--no-lifetime"], "rlimit": 100,
+    "contracts": UNITS["U6"]["contracts"] + ["contracts/U3.contract:dns_sector.rs::DNSSector::set_(qdcount|ancount|nscount|arcount)$", "contracts/U9.contract", "contracts/U9t.contract"],
+    "parts": _p9,
 }
